@@ -124,6 +124,10 @@ fn gen_v(depth: u32) -> V {
             }
         }
         17 => V::List((0..pick(&[0u32, 1, 2, 3, 30])).map(|_| gen_v(depth + 1)).collect()),
+        18 if choice(3) == 0 => {
+            // a map whose keys are timestamps and whose values are longs
+            V::Map((0..1 + choice(3)).map(|i| (V::Timestamp(1_600_000_000_000 + i as i64), V::Long(pick(&[-7i64, 5, -70_000_000_000, i64::MAX])))).collect())
+        }
         18 => V::Map((0..choice(4)).map(|i| (V::Str(format!("k{}", i)), gen_v(depth + 1))).collect()),
         19 if choice(3) == 0 => {
             // arrays of compound or zero-width elements
@@ -135,10 +139,6 @@ fn gen_v(depth: u32) -> V {
                 3 => V::Array((0..n).map(|_| V::Null).collect()),
                 _ => V::Array((0..n).map(|_| V::List(vec![])).collect()),
             }
-        }
-        18 if choice(3) == 0 => {
-            // a map whose keys are timestamps and whose values are longs
-            V::Map((0..1 + choice(3)).map(|i| (V::Timestamp(1_600_000_000_000 + i as i64), V::Long(pick(&[-7i64, 5, -70_000_000_000, i64::MAX])))).collect())
         }
         19 => {
             // arrays: one element type
